@@ -10,13 +10,16 @@ from ..rules import (PI, S, body_nodes, find_raise_guards, interp_returns, names
 from ..srcmodel import src_of
 
 EXPLANATION = (
-    "Static table/algebra rules over opticomlib/utils.py. C19.1 reads every branch of si() as (lo, hi, scale, prefix) and "
-    "checks scale*10^e(prefix)=1, lo=10^e, hi=10^(e+3) and contiguity of the ladder. C19.2 reduces db/dbm/idb/idbm to "
-    "log-linear normal forms and checks the four compositions reduce to the identity, dbm=db+30, and the negative-input "
-    "ValueError guards. C19.3 compares Q and gaus with their closed forms as polynomial normal forms. C19.4 checks the three "
-    "region predicates of rcos share break points (1-+alpha)/(2T) and the value forms. C19.5 checks dec2bin's range guard "
-    "and big-endian store order. C19.6 parses the four type-inference regexes and checks the character-class chain "
-    "bool<int<float<complex, test order, the i->j rewrite, the separators and the ValueError fall-through. "
+    "Algebra and finite-class rules over opticomlib/utils.py. C19.1 interprets si() on the boundary, an interior point and a point just "
+    "below the next boundary of each of the 10 decades (x is only compared with the boundaries and multiplied once): printed "
+    "mantissa * 10^e(prefix) = x with the mantissa in [1,1000), no gap, unbounded top decade, si(0) prints 0. C19.2 reduces db/dbm/idb/idbm "
+    "to log-linear normal forms and checks the four compositions reduce to the identity, dbm=db+30, and rejection of negative input "
+    "(ValueError) on the sign classes. C19.7: no conversion writes into its argument. C19.3 compares Q and gaus with their closed forms as polynomial normal forms. C19.4 checks the three "
+    "region predicates of rcos share break points (1-+alpha)/(2T) and the value forms. C19.5 decides dec2bin's range guard on the order classes of num around "
+    "2**digits-1 for three widths and checks the big-endian store order (counter or descending range). C19.6 parses the four "
+    "type-inference regexes (character-class chain bool<int<float<complex, test order, fall-through None) and interprets str2array for "
+    "the 5 x 5 (inferred class, dtype) table: ValueError for unmatched text, i->j before complex parsing, separators, token-wise vs "
+    "digit-wise dispatch of 0/1 text, explicit dtype applied last, digit-wise conversion by parsing not by code-point arithmetic. "
     "Decided: these structural clauses (necessary conditions); not decided: floating-point round-trips, printed precision.")
 TRUSTED = ["CPython ast", "numpy log10/power semantics", "re._parser character classes", "scipy.special.erfc"]
 
